@@ -1819,6 +1819,78 @@ theorem cache_transparent (cache : Glob.PatCache) (hv : Glob.PatCache.Valid cach
 theorem empty_valid (n : Nat) : Glob.PatCache.Valid (LRU.empty n) := by
   intro e he; cases he
 
+theorem globber_transparent (cache : Glob.PatCache) (hv : Glob.PatCache.Valid cache) (pat subject : Str) (cs : Bool) :
+    (Glob.globberTest cache pat subject cs).1 = (Glob.compile pat cs).map (·.re.matches subject) ∧
+      Glob.PatCache.Valid (Glob.globberTest cache pat subject cs).2 := by
+  unfold Glob.globberTest Glob.globberCompile LRU.get
+  cases hl : LRU.lookup cache (pat, cs) with
+  | some c =>
+    have hmem := lookup_mem cache (pat, cs) c hl
+    have hc := hv _ hmem
+    simp only at hc
+    simp only [hc, TR.map]
+    refine ⟨trivial, ?_⟩
+    intro e he
+    rcases mem_odSet _ _ _ e he with h | h
+    · exact hv e ((List.filter_sublist).subset h)
+    · subst h; exact hc
+  | none => exact ⟨rfl, hv⟩
+
+theorem wild_cache_transparent (cache : Wild.PatCache) (hv : Wild.PatCache.Valid cache) (pat name : Str) (cs : Bool) :
+    (Wild.cachedMatch cache pat name cs).1 = Wild.wmatch pat name cs ∧
+      Wild.PatCache.Valid (Wild.cachedMatch cache pat name cs).2 := by
+  unfold Wild.cachedMatch LRU.get
+  cases hl : LRU.lookup cache (pat, cs) with
+  | some c =>
+    have hmem := lookup_mem cache (pat, cs) c hl
+    have hc := hv _ hmem
+    simp only at hc
+    simp only [Wild.wmatch, hc, TR.map]
+    refine ⟨trivial, ?_⟩
+    intro e he
+    rcases mem_odSet _ _ _ e he with h | h
+    · exact hv e ((List.filter_sublist).subset h)
+    · subst h; exact hc
+  | none =>
+    simp only
+    cases hc : Wild.compile pat cs with
+    | err e => simp only [Wild.wmatch, hc, TR.map]; exact ⟨trivial, hv⟩
+    | ok c =>
+      simp only [Wild.wmatch, hc, TR.map]
+      refine ⟨trivial, ?_⟩
+      intro e he
+      unfold LRU.set at he
+      simp only at he
+      rcases mem_odSet _ _ _ e he with h | h
+      · split at h
+        · exact hv e (List.mem_of_mem_tail h)
+        · exact hv e h
+      · subst h; exact hc
+
+theorem op_transparent (st : Glob.Caches) (hv : st.Valid) (op : Glob.CacheOp) :
+    (op.run st).1 = op.direct ∧ (op.run st).2.Valid := by
+  cases op with
+  | globMatch pat path cs =>
+    have := cache_transparent st.glob hv.1 pat path cs
+    exact ⟨this.1, this.2, hv.2⟩
+  | globber pat subject cs =>
+    have := globber_transparent st.glob hv.1 pat subject cs
+    exact ⟨this.1, this.2, hv.2⟩
+  | wildMatch pat name cs =>
+    have := wild_cache_transparent st.wild hv.2 pat name cs
+    exact ⟨this.1, hv.1, this.2⟩
+
+theorem runAll_transparent (ops : List Glob.CacheOp) : ∀ st : Glob.Caches, st.Valid →
+    (Glob.runAll st ops).1 = ops.map Glob.CacheOp.direct ∧ (Glob.runAll st ops).2.Valid := by
+  induction ops with
+  | nil => intro st hv; exact ⟨rfl, hv⟩
+  | cons op ops ih =>
+    intro st hv
+    have h1 := op_transparent st hv op
+    have h2 := ih (op.run st).2 h1.2
+    simp only [Glob.runAll, List.map_cons]
+    exact ⟨by rw [h1.1, h2.1], h2.2⟩
+
 /-! ### the printer: the AST prints to the text the code builds -/
 
 def rawText : Bool → Str → Str
